@@ -173,6 +173,33 @@ func (h *harness) mirrorInit() {
 	h.mu.Unlock()
 }
 
+// checkResetAncestor is C29's "a reset clears history", judged at every scan the
+// controller starts after Reset returned: as long as the archive on disk is still
+// the empty one the reset wrote, the controller must hand its endpoints no
+// last-synchronized state at all (otherwise what disappeared while the session
+// was paused is taken for a deletion and propagated: content is lost). Once a
+// cycle has saved a new archive the question is closed. (Judged per scan, not
+// per pair of scans: scans of different cycles can pair up after cancellations.)
+func (h *harness) checkResetAncestor(side string, ancestor *core.Entry) {
+	h.mu.Lock()
+	pending := h.resetSeq > 0
+	h.mu.Unlock()
+	if !pending {
+		return
+	}
+	onDisk, err := h.loadArchive()
+	if err != nil || onDisk != nil {
+		h.mu.Lock()
+		h.resetSeq = 0
+		h.mu.Unlock()
+		return
+	}
+	h.s.Count("probe.scans_checked_after_reset", 1)
+	if ancestor != nil {
+		h.s.Violate("C29", "history-survived-reset", "Scan", "the archive on disk is still the empty one Reset wrote, yet the controller starts a %s scan with a last-synchronized state of %s", side, render(ancestor))
+	}
+}
+
 // noteTransitionReturned records that the Transition call of the current cycle
 // on this side has returned (whatever it returned).
 func (h *harness) noteTransitionReturned(side string) {
@@ -283,6 +310,7 @@ func (e *modelEndpoint) Poll(ctx context.Context) error {
 
 func (e *modelEndpoint) Scan(ctx context.Context, ancestor *core.Entry, full bool) (*core.Snapshot, error, bool) {
 	h := e.h
+	h.checkResetAncestor(e.side, ancestor)
 	started := h.enter(e.side, "scan")
 	defer h.leave(e.side)
 	h.mu.Lock()
@@ -560,17 +588,6 @@ func (h *harness) checkPlan(a, b *scanRecord) {
 	anc, at, bt, conflicts := core.Reconcile(a.ancestor, alpha, beta, h.mode)
 	h.s.Count("probe.plans_checked", 1)
 	h.mu.Lock()
-	// C29: a reset clears history. The first cycle whose scans both started
-	// after Reset returned must be given no last-synchronized state at all
-	// (otherwise what disappeared while the session was paused is taken for a
-	// deletion and propagated: content is lost).
-	if h.resetSeq > 0 && a.started > h.resetSeq && b.started > h.resetSeq {
-		h.resetSeq = 0
-		h.s.Count("probe.first_cycle_after_reset", 1)
-		if a.ancestor != nil || b.ancestor != nil {
-			h.s.Violate("C29", "history-survived-reset", "Scan", "the first cycle after Reset works from a last-synchronized state of %s (alpha) / %s (beta) instead of none", render(a.ancestor), render(b.ancestor))
-		}
-	}
 	h.expectedPlan = map[string][]*core.Change{"alpha": at, "beta": bt}
 	// C04 per cycle: if the previous cycle applied everything it planned
 	// exactly and this cycle's scans return exactly the trees that cycle left
